@@ -142,6 +142,20 @@ func init() {
 				}
 				js = append(js, &Job{Module: "mcap", Harness: "VC01RoundTrip", Params: P("tpl", tpl, "ln", ln, "pn", pn, "idv", idv, "cfg", cfg, "skip", skip, "cs", cs), TimeoutS: to})
 			}
+			// longer strings and payloads (lengths are concrete, contents symbolic): offsets and lengths beyond one and two
+			// bytes, payloads larger than the chunk size after small ones (T8), attachment larger than io.Copy's buffer
+			addLong := func() {
+				add(8, 1, 80, 0, 3, 0, 64)
+				add(8, 1, 80, 0, 7, 0, 64)
+				add(8, 3, 40, 1, 1, 0, 100)
+				add(5, 9, 40, 0, 3, 0, 60)
+				add(6, 20, 300, 1, 7, 0, 100)
+				add(6, 17, 5000, 0, 3, 0, 4096)
+				if tier == "thorough" {
+					add(1, 300, 70000, 0, 3, 0, 1000)
+					add(6, 300, 70000, 0, 2, 0, 1000)
+				}
+			}
 			if tier == "quick" {
 				for _, tpl := range []int{1, 5, 6, 7} {
 					for _, cfg := range []int{0, 2, 1, 3, 7, 3 | 8, 3 | 16} {
@@ -157,8 +171,10 @@ func init() {
 				add(2, 0, 0, 1, 3, 0, 1000)
 				add(3, 3, 5, 0, 2, 0, 1000)
 				add(4, 3, 0, 0, 1, 0, 1000)
+				addLong()
 				return js
 			}
+			addLong()
 			for tpl := 0; tpl <= 7; tpl++ {
 				for _, lp := range [][2]int{{0, 0}, {1, 2}, {3, 5}} {
 					for idv := 0; idv <= 1; idv++ {
@@ -180,8 +196,8 @@ func init() {
 			return js
 		},
 		bounds: map[string]any{
-			"quick":    map[string]any{"templates": "T0-T7 (T1,T5,T6,T7 across 8 option sets; T0,T2,T3,T4 once)", "string_len": "0,1,3", "payload_len": "0..6", "messages": "<=3", "channels": "<=2", "symbolic": "every byte of every string/payload, sequence, log/publish/create times, lexer validate flag; Skip* flags symbolic for T0"},
-			"thorough": map[string]any{"templates": "T0-T7", "string_len": "0,1,3", "payload_len": "0,2,5(+1)", "ids": "{1,2} and {65535,0}", "options": "chunked x crc x xor-codec x skipMagic x overrideLibrary (11 combos) x chunk size {1,60,100000}; all 8 Skip* flags symbolic on the middle length class, off elsewhere", "symbolic": "as quick"},
+			"quick":    map[string]any{"templates": "T0-T7 (T1,T5,T6,T7 across 8 option sets; T0,T2,T3,T4 once)", "string_len": "0,1,3; and 9, 17, 20 in the long-length jobs", "payload_len": "0..6; and 40, 80, 300, 5000 in the long-length jobs (T8: two 1-byte messages, then one larger than the chunk size, then another small one)", "messages": "<=4", "channels": "<=2", "symbolic": "every byte of every string/payload, sequence, log/publish/create times, lexer validate flag; Skip* flags symbolic for T0"},
+			"thorough": map[string]any{"templates": "T0-T7", "string_len": "0,1,3; long-length jobs 9..300", "payload_len": "0,2,5(+1); long-length jobs 40..70000", "ids": "{1,2} and {65535,0}", "options": "chunked x crc x xor-codec x skipMagic x overrideLibrary (11 combos) x chunk size {1,60,100000}; all 8 Skip* flags symbolic on the middle length class, off elsewhere", "symbolic": "as quick"},
 		},
 		outside:     outsideCommon,
 		assumptions: append([]string{"while known finding C04-K1 is listed: no message log time equals 2^64-1"}, commonAssumptions...),
@@ -348,6 +364,11 @@ func init() {
 					add(tpl, 1, 2, 3, 1000+(2|8|64), 1000)
 					add(tpl, 1, 2, 2, 1000+(4|16|32), 1000)
 				}
+				// ids 65535 and 0 (the extremes of the id range)
+				for _, tpl := range []int{5, 6} {
+					js = append(js, &Job{Module: "mcap", Harness: "VC08Stats", Params: P("tpl", tpl, "ln", 1, "pn", 2, "cfg", 3, "skip", 0, "cs", 1, "idv", 1), TimeoutS: 900})
+					js = append(js, &Job{Module: "mcap", Harness: "VC08Stats", Params: P("tpl", tpl, "ln", 1, "pn", 2, "cfg", 2, "skip", 0, "cs", 1000, "idv", 1), TimeoutS: 900})
+				}
 				addc(2, 1, 0, 0)
 				addc(3, 1, 0, 0)
 				addc(3, 2, 0, 1000+(1|2|64))
@@ -362,6 +383,7 @@ func init() {
 					add(tpl, 1, 2, c[0], -1, c[1])
 				}
 				add(tpl, 3, 5, 3, -1, 1)
+				js = append(js, &Job{Module: "mcap", Harness: "VC08Stats", Params: P("tpl", tpl, "ln", 1, "pn", 2, "cfg", 3, "skip", -1, "cs", 1, "idv", 1), TimeoutS: 900})
 			}
 			for n := 1; n <= 5; n++ {
 				for per := 1; per <= 3; per++ {
@@ -373,7 +395,7 @@ func init() {
 			return js
 		},
 		bounds: map[string]any{
-			"quick":    map[string]any{"templates": "T0,T1,T5,T6,T7 x 3 option sets (chunk size 1 / 1000 / unchunked; 3 Skip* flags symbolic each)", "chunk_files": "1-3 messages, 1-2 per chunk, with/without a trailing chunk that holds only a channel record", "symbolic": "every log time (64 bit), all strings and payload bytes, listed flags"},
+			"quick":    map[string]any{"ids": "schema/channel ids {1,2}; T5 and T6 also with ids {65535,0}", "templates": "T0,T1,T5,T6,T7 x 3 option sets (chunk size 1 / 1000 / unchunked; 3 Skip* flags symbolic each)", "chunk_files": "1-3 messages, 1-2 per chunk, with/without a trailing chunk that holds only a channel record", "symbolic": "every log time (64 bit), all strings and payload bytes, listed flags"},
 			"thorough": map[string]any{"templates": "T0-T7 x 7 option sets, all 8 Skip* flags symbolic", "chunk_files": "1-5 messages x 1-3 per chunk x trailing channel-only chunk"},
 		},
 		outside:     append([]string{"chunks handed to WriteChunkWithIndexes directly by a caller (the writer's own flush path is what is decided)"}, outsideCommon...),
@@ -488,16 +510,21 @@ func init() {
 		needEnd: true,
 		jobs: func(tier string) []*Job {
 			var js []*Job
+			sized := 0
 			add := func(tpl, cfg, cs, validate, max int) {
 				for lo := 0; lo < max; lo += 16 {
 					for rd := 0; rd <= 1; rd++ {
 						if rd == 1 && cfg&4 != 0 {
 							continue // the Reader API offers no way to pass a custom decompressor
 						}
-						js = append(js, &Job{Module: "mcap", Harness: "VC09Cut", Params: P("tpl", tpl, "cfg", cfg, "cs", cs, "validate", validate, "lo", lo, "hi", lo+16, "rd", rd), TimeoutS: 1200})
+						js = append(js, &Job{Module: "mcap", Harness: "VC09Cut", Params: P("tpl", tpl, "cfg", cfg, "cs", cs, "validate", validate, "lo", lo, "hi", lo+16, "rd", rd, "sized", sized), TimeoutS: 1200})
 					}
 				}
 			}
+			// the same cut through a source that also has Len()/Size() (what bytes.Reader offers)
+			sized = 1
+			add(5, 3, 1, 0, 512)
+			sized = 0
 			if tier == "quick" {
 				add(5, 3, 1, 1, 512)
 				add(6, 2, 1000, 0, 400)
@@ -512,7 +539,7 @@ func init() {
 			return js
 		},
 		bounds: map[string]any{
-			"quick":    map[string]any{"files": "T5 chunked (one chunk per message; with CRCs and without, validating lexer) and T6 unchunked (with an attachment and a metadata record)", "cut": "cut position L symbolic, the range 0..len(file)-1 partitioned into cells of 16 bytes (one job per cell; the union is every position)", "symbolic": "L, every field value and byte of the file", "readers": "lexer with attachment callback; non-indexed message iterator"},
+			"quick":    map[string]any{"files": "T5 chunked (one chunk per message; with CRCs and without, validating lexer) and T6 unchunked (with an attachment and a metadata record)", "cut": "cut position L symbolic, the range 0..len(file)-1 partitioned into cells of 16 bytes (one job per cell; the union is every position)", "symbolic": "L, every field value and byte of the file", "readers": "lexer with attachment callback; non-indexed message iterator", "source_kinds": "a plain Read(+Seek) source; and (T5 chunked, non-validating) a source that also exposes Len()/Size() like bytes.Reader, both symbolic"},
 			"thorough": map[string]any{"files": "T5,T6,T7 x 6 option sets (chunk sizes 1/60/1000, CRC on/off, xor codec, validating or not)", "cut": "as quick"},
 		},
 		outside:     append([]string{"files longer than 576 bytes"}, outsideCommon...),
@@ -727,6 +754,14 @@ func specJobs(tier string, crc int) []*Job {
 	addc := func(n, per, tail, cfg, skip int) {
 		js = append(js, &Job{Module: "mcap", Harness: "VC05Chunks", Params: P("n", n, "per", per, "tail", tail, "cfg", cfg, "skip", skip, "crc", crc), TimeoutS: 900})
 	}
+	// longer records: offsets/lengths above 255 and above 65535, a message larger than the chunk size after small ones
+	add(8, 1, 80, 0, 3, 0, 64)
+	add(6, 20, 300, 0, 3, 0, 100)
+	add(5, 9, 40, 1, 3, 0, 1)
+	if tier == "thorough" {
+		add(6, 300, 70000, 0, 3, 0, 1000)
+		add(8, 3, 300, 0, 7, 0, 200)
+	}
 	if tier == "quick" {
 		for _, tpl := range []int{0, 1, 5, 6, 7} {
 			add(tpl, 1, 2, 0, 3, 0, 1)
@@ -768,7 +803,7 @@ func specJobs(tier string, crc int) []*Job {
 
 func init() {
 	specBounds := map[string]any{
-		"quick":    map[string]any{"templates": "T0,T1,T5,T6,T7 under 3 option sets (one chunk per message / one chunk / unchunked; 3 Skip* flags symbolic each), T0 with all 8 Skip* flags symbolic, T3 with xor codec, T6 at chunk size 60, T2 with SkipMagic", "chunk_files": "2-4 messages on two channels, 1-2 per chunk, all log/publish times symbolic, with/without a chunk that holds only a channel record", "symbolic": "every string/payload byte, times, sequence numbers, the listed flags", "oracle": "a decoder written from the specification only (zz_verif_spec.go), executed symbolically on the writer's real output"},
+		"quick":    map[string]any{"templates": "T0,T1,T5,T6,T7 under 3 option sets (one chunk per message / one chunk / unchunked; 3 Skip* flags symbolic each), T0 with all 8 Skip* flags symbolic, T3 with xor codec, T6 at chunk size 60, T2 with SkipMagic", "long_records": "T8 (two small messages, one of 80 bytes with chunk size 64, one small), T6 with 20-byte strings and 300-byte payloads (offsets above 255), T5 with 9-byte strings; thorough: 300-byte strings and 70000-byte payloads (offsets above 65535)", "chunk_files": "2-4 messages on two channels, 1-2 per chunk, all log/publish times symbolic, with/without a chunk that holds only a channel record", "symbolic": "every string/payload byte, times, sequence numbers, the listed flags", "oracle": "a decoder written from the specification only (zz_verif_spec.go), executed symbolically on the writer's real output"},
 		"thorough": map[string]any{"templates": "T0-T7 x 3 length classes x 8 option sets; all 8 Skip* flags symbolic at the middle length class", "chunk_files": "1-5 messages x 1-3 per chunk x trailing channel-only chunk, none and xor codec"},
 	}
 	checkTable["C05"] = &checkSpec{needEnd: true, jobs: func(tier string) []*Job { return specJobs(tier, 0) }, bounds: specBounds, outside: outsideCommon, assumptions: commonAssumptions}
